@@ -10,13 +10,14 @@ import (
 
 // ModFileSpec is one module file: what it declares (known to the generator) and its text.
 type ModFileSpec struct {
-	Name        string       `json:"name"`
-	Module      string       `json:"module"` // "" = file with a model header (not a module)
-	Model       *Model       `json:"model"`  // types (base and extensions) and conditions of this file
-	Extend      map[int]bool `json:"extend,omitempty"`
-	SyntaxError bool         `json:"syntax_error,omitempty"`
-	Fixed       bool         `json:"fixed_layout,omitempty"` // always rendered in the canonical layout
-	Text        string       `json:"text"`
+	Name        string         `json:"name"`
+	Module      string         `json:"module"` // "" = file with a model header (not a module)
+	Model       *Model         `json:"model"`  // types (base and extensions) and conditions of this file
+	Extend      map[int]bool   `json:"extend,omitempty"`
+	SyntaxError bool           `json:"syntax_error,omitempty"`
+	ManyErrors  int            `json:"many_errors,omitempty"`  // the syntax error consists of this many unlexable characters
+	Fixed       bool           `json:"fixed_layout,omitempty"` // always rendered in the canonical layout
+	Text        string         `json:"text"`
 	Pos         map[string]Pos `json:"pos,omitempty"`
 }
 
@@ -36,23 +37,26 @@ type ModuleSet struct {
 	Files     []ModFileSpec `json:"files"`
 	Schema    string        `json:"schema"`
 	Conflicts []Conflict    `json:"conflicts,omitempty"`
+	Scale     string        `json:"scale,omitempty"` // dimension along which the set was scaled up ("" = none)
 	// Expected (only meaningful when there is no conflict): the merged model with attribution
 	Expected *Model `json:"expected,omitempty"`
 }
 
 type ModOpts struct {
-	MaxFiles     int  // default 5
-	MaxConflicts int  // 0..n injected conflicts
-	MinExtFiles  int  // at least this many files contribute extensions (C12)
-	Layout       bool // random layout for some files
-	Decoys       bool // C16: longer names sharing a prefix declared earlier, same-named relations in other types
-	MultiDup     bool // C12: several conflicts inside one file (several duplicate conditions, several clashing relations)
-	OnlyKinds    []string
-	CaseNames    bool // in a quarter of the sets, rename a condition / relation / type to the upper-case form of another one (names that differ only in case)
-	Twice        bool // one set in six: two more files, identical to the byte, each re-defining an existing type (the same conflict at the same position in two files)
-	EmptySelfExt bool // one set in eight: a file declares a type without relations and extends it, without relations, itself
-	BigExt       bool // one set in ten: one extension contributes 13..20 more relations and one file 13..16 more conditions (sorts behave differently above 12 elements)
-	GlueNames    bool // one set in six: names arranged so that <type A> sep <relation> reads like <type B> sep <relation> ("a"+"."+"g.r" == "a.g"+"."+"r")
+	MaxFiles      int  // default 5
+	MaxConflicts  int  // 0..n injected conflicts
+	MinExtFiles   int  // at least this many files contribute extensions (C12)
+	Layout        bool // random layout for some files
+	Decoys        bool // C16: longer names sharing a prefix declared earlier, same-named relations in other types
+	MultiDup      bool // C12: several conflicts inside one file (several duplicate conditions, several clashing relations)
+	OnlyKinds     []string
+	CaseNames     bool // in a quarter of the sets, rename a condition / relation / type to the upper-case form of another one (names that differ only in case)
+	Twice         bool // one set in six: two more files, identical to the byte, each re-defining an existing type (the same conflict at the same position in two files)
+	EmptySelfExt  bool // one set in eight: a file declares a type without relations and extends it, without relations, itself
+	BigExt        bool // one set in ten: one extension contributes 13..20 more relations and one file 13..16 more conditions (sorts behave differently above 12 elements)
+	Scale         bool // one set in five is scaled up along one dimension, to counts around the thresholds at which implementations switch algorithms (8, 16, 32, 64): many files (8..12, several of them broken), a base type with 14..40 relations, a broken file with 33..80 separate syntax errors, many conditions; and one set in three draws the first letter of its names at random (so that names of extensions do not always sort behind the names of the base type)
+	ScaleNoBroken bool // Scale without the dimensions that add broken files (for checks that inject exactly one conflict)
+	GlueNames     bool // one set in six: names arranged so that <type A> sep <relation> reads like <type B> sep <relation> ("a"+"."+"g.r" == "a.g"+"."+"r")
 }
 
 var ConflictKinds = []string{
@@ -61,13 +65,18 @@ var ConflictKinds = []string{
 }
 
 type modCtx struct {
-	t     *rapid.T
-	names map[string]bool
+	t         *rapid.T
+	names     map[string]bool
+	mixPrefix bool
 }
 
 func (c *modCtx) fresh(prefix string) string {
 	for i := 0; ; i++ {
-		s := prefix + rapid.StringMatching(`[a-z]{1,3}[0-9]?`).Draw(c.t, prefix+"name")
+		pf := prefix
+		if c.mixPrefix && len(prefix) == 1 {
+			pf = rapid.StringMatching(`[a-z]`).Draw(c.t, prefix+"prefix")
+		}
+		s := pf + rapid.StringMatching(`[a-z]{1,3}[0-9]?`).Draw(c.t, prefix+"name")
 		if prefix != "c" && rapid.IntRange(0, 3).Draw(c.t, prefix+"sep") == 0 {
 			// identifiers with the separators the lexer admits inside names
 			s += rapid.SampledFrom([]string{"-", ".", "/"}).Draw(c.t, prefix+"sepc") + rapid.StringMatching(`[a-z0-9]{1,2}`).Draw(c.t, prefix+"tail")
@@ -112,6 +121,21 @@ func Modules(t *rapid.T, o ModOpts) *ModuleSet {
 		minFiles = o.MinExtFiles
 	}
 	nFiles := rapid.IntRange(minFiles, o.MaxFiles).Draw(t, "nFiles")
+	scale := ""
+	if o.Scale {
+		c.mixPrefix = rapid.IntRange(0, 2).Draw(t, "mixPrefix") == 0
+		if rapid.IntRange(0, 4).Draw(t, "scale") == 0 {
+			dims := []string{"files", "files-broken", "big-type", "many-errors", "many-conds"}
+			if o.ScaleNoBroken {
+				dims = []string{"files", "big-type", "many-conds"}
+			}
+			scale = rapid.SampledFrom(dims).Draw(t, "scaleDim")
+		}
+		if scale == "files" || scale == "files-broken" {
+			nFiles = rapid.IntRange(8, 12).Draw(t, "nFilesBig")
+		}
+	}
+	ms.Scale = scale
 	modNames := []string{"core", "wiki", "team-a", "mod_4", "type"}
 	usedFile := map[string]bool{}
 	for i := 0; i < nFiles; i++ {
@@ -146,6 +170,21 @@ func Modules(t *rapid.T, o ModOpts) *ModuleSet {
 		f.Model.Types = append(f.Model.Types, td)
 		base[tn] = bi
 		baseNames = append(baseNames, tn)
+	}
+	if scale == "big-type" {
+		// one base type with relation counts around 16 and 32
+		tn := baseNames[rapid.IntRange(0, len(baseNames)-1).Draw(t, "bigType")]
+		n := rapid.SampledFrom([]int{14, 15, 16, 17, 18, 24, 31, 32, 33, 40}).Draw(t, "bigTypeN")
+		f := &ms.Files[base[tn].file]
+		for ti := range f.Model.Types {
+			if f.Model.Types[ti].Name == tn {
+				for k := 0; k < n; k++ {
+					rn := c.fresh("r")
+					f.Model.Types[ti].Rels = append(f.Model.Types[ti].Rels, Relation{Name: rn, Rw: &Rewrite{Kind: This}, Restr: []Restriction{{Type: "user"}}})
+					base[tn].rels = append(base[tn].rels, rn)
+				}
+			}
+		}
 	}
 	// extensions
 	type extInfo struct {
@@ -197,6 +236,9 @@ func Modules(t *rapid.T, o ModOpts) *ModuleSet {
 	// conditions
 	var condNames []string
 	nCond := rapid.IntRange(0, 3).Draw(t, "nConds")
+	if scale == "many-conds" {
+		nCond = rapid.SampledFrom([]int{8, 9, 15, 16, 17, 31, 32, 33}).Draw(t, "nCondsBig")
+	}
 	for i := 0; i < nCond; i++ {
 		cn := c.fresh("c")
 		// types and conditions live in different name spaces: a condition may be named like a type (or like a
@@ -384,6 +426,28 @@ func Modules(t *rapid.T, o ModOpts) *ModuleSet {
 			ms.Conflicts = append(ms.Conflicts, Conflict{Kind: kind, Name: rn, Type: e.typ, Files: uniq(ms.Files[e.file].Name, ms.Files[fi].Name)})
 		}
 	}
+	if scale == "files-broken" {
+		// several broken files among many: 3..6 files with a syntax error, at drawn positions
+		k := rapid.IntRange(3, 6).Draw(t, "nBroken")
+		for j := 0; j < k; j++ {
+			fi := rapid.IntRange(0, nFiles-1).Draw(t, "brokenFile")
+			f := &ms.Files[fi]
+			if f.SyntaxError {
+				continue
+			}
+			f.SyntaxError = true
+			ms.Conflicts = append(ms.Conflicts, Conflict{Kind: "syntax-error", Files: []string{f.Name}})
+		}
+	}
+	if scale == "many-errors" {
+		fi := rapid.IntRange(0, nFiles-1).Draw(t, "manyErrFile")
+		f := &ms.Files[fi]
+		if !f.SyntaxError {
+			f.SyntaxError = true
+			ms.Conflicts = append(ms.Conflicts, Conflict{Kind: "syntax-error", Files: []string{f.Name}})
+		}
+		f.ManyErrors = rapid.SampledFrom([]int{31, 32, 33, 34, 63, 64, 65, 80}).Draw(t, "manyErrN")
+	}
 	// several conflicts inside ONE file (the order of their errors is then decided inside that file's processing):
 	// one file re-declares two or three conditions of other files, or one extension repeats several base relations
 	if o.MultiDup && rapid.IntRange(0, 2).Draw(t, "multiDup") == 0 && nFiles >= 2 {
@@ -509,7 +573,21 @@ func Modules(t *rapid.T, o ModOpts) *ModuleSet {
 		}
 		r := Render(f.Model, ch, opts)
 		f.Text, f.Pos = r.Text, r.Pos
-		if f.SyntaxError {
+		if f.SyntaxError && f.ManyErrors > 0 {
+			// many separate errors in one file: characters no lexer rule matches (each is reported and dropped), spread over
+			// the lines of the file or gathered at its end
+			junk := rapid.SampledFrom([]string{"$", "@", "\x00", "?", "~"}).Draw(t, "manyErrChar")
+			if rapid.Bool().Draw(t, "manyErrSpread") {
+				lines := strings.Split(f.Text, "\n")
+				for k := 0; k < f.ManyErrors; k++ {
+					li := k % len(lines)
+					lines[li] += junk
+				}
+				f.Text = strings.Join(lines, "\n") + "\n" + junk + "\n" // (junk behind a comment marker is no error; the last one always is)
+			} else {
+				f.Text += "\n" + strings.Repeat(junk, f.ManyErrors) + "\n" // on a line of its own: the last line may end in a comment
+			}
+		} else if f.SyntaxError {
 			f.Text += rapid.SampledFrom([]string{"\ntype\n", "\n  relations\n", "\ndefine x: [user\n", "\ntype a b\n", "\n)\n"}).Draw(t, "syntaxJunk")
 		}
 	}
